@@ -142,7 +142,16 @@ def build_args(cfg, call, S):
                 hi = osyris.Array(iv[1] / S * cfg["boxlen"] * ul, unit="cm")
                 out["position_" + "xyz"[d]] = (lambda lo, hi: (lambda x: (x >= lo) & (x <= hi)))(lo, hi)
         return out
-    if k == "level":
+    def dx_fn():
+        # cell sizes of the accepted levels a..b, with a margin of half a level on both sides
+        big = osyris.Array(cfg["boxlen"] * ul / 2 ** call["a"] * 1.4, unit="cm")
+        small = osyris.Array(cfg["boxlen"] * ul / 2 ** call["b"] * 0.7, unit="cm")
+        return lambda dx: (dx < big) & (dx > small)
+    if k == "dx":
+        kw["select"] = {"mesh": {"dx": dx_fn()}}
+    elif k == "dx+level":
+        kw["select"] = {"mesh": ({"level": level_fn(), "dx": dx_fn()} if call["order"] == "ld" else {"dx": dx_fn(), "level": level_fn()})}
+    elif k == "level":
         kw["select"] = {"mesh": {"level": level_fn()}}
         if call.get("partlevel"):
             kw["select"]["part"] = {"level": (lambda l: l <= call["partlevel"])}
@@ -292,7 +301,7 @@ def compare_dataset(cfg, lay, call, ds, fresh=True):
         return f"meta ncells: expected {exp['mesh'][4]} got {ds.meta['ncells']}"
     if "part" in exp and ds.meta["nparticles"] != exp["part"][4]:
         return f"meta nparticles: expected {exp['part'][4]} got {ds.meta['nparticles']}"
-    if call["kind"] in ("level", "value+level", "position+level") and ds.meta["lmax"] != lay["exp"][call["req"] - 1]["lmax"]:
+    if call["kind"] in ("level", "value+level", "position+level", "dx+level") and ds.meta["lmax"] != lay["exp"][call["req"] - 1]["lmax"]:
         return f"meta lmax: expected {lay['exp'][call['req'] - 1]['lmax']} got {ds.meta['lmax']}"
     # metadata read from the amr / hydro headers (beyond the listed properties: part of the grammar's coverage)
     if "mesh" in exp:
@@ -552,7 +561,7 @@ def run_c12(rep, tier, seed):
     n = 100 if tier == "quick" else 1200
     cfgs = [c for c in make_cfgs(tier, seed + 1, n, n_hilbert3=n // 2) if c["levelmax"] >= 2]
     lays = tlc_layouts(rep, cfgs, "c12")
-    run_batch(rep, cfgs, lays, {"level", "value+level", "position+level"}, "level-limited-loads", with_log=True)
+    run_batch(rep, cfgs, lays, {"level", "value+level", "position+level", "dx", "dx+level"}, "level-limited-loads", with_log=True)
     finish_rule(rep, "TLC checks that the leaves of the tree truncated at every level L tile the box exactly once (Tiling, NoOverlap) and computes Leaves(Truncate(tree, L)) filtered by the predicate; the real loader is called with level predicates l<=k, l<k, a<l<b, l==k alone and combined with a value predicate; rows, stored coarse values, meta lmax and the read log are compared")
 
 
